@@ -104,6 +104,18 @@ Theorem C06_to_evm_erc20_born_margin : forall s o from d x to s',
 Proof. exact to_evm_erc20_born_margin. Qed.
 Print Assumptions C06_to_evm_erc20_born_margin.
 
+(** Other modules' transactions: no x/tokenfactory admin operation (create, mint_to, burn_from, change admin) and no
+    bank send changes ANY balance of the EVM module account — the admin of a factory denom that has a FunToken mapping
+    can burn from and mint to every account except the ones the bank blocks, and the module account is blocked. *)
+Theorem C06_escrow_untouched_by_other_modules : forall s o s', exec s o = Some s' ->
+  match o with
+  | TfCreate _ _ | TfMint _ _ _ _ | TfBurn _ _ _ _ | TfChangeAdmin _ _ _ | BankMsgSend _ _ _ _ => True
+  | _ => False
+  end ->
+  forall d, bank s' Module d = bank s Module d.
+Proof. exact escrow_untouched_by_other_modules. Qed.
+Print Assumptions C06_escrow_untouched_by_other_modules.
+
 (** A rejected transaction, and an operation inside a reverted frame, change nothing (the model's
     reading of C04; the harness checks the implementation against it). *)
 Theorem C06_rejected_or_reverted_changes_nothing : forall s o,
